@@ -435,6 +435,17 @@ def gen_cases(ctx):
                  "%---------------------d", "%5-3d", "%.-3d", "%..3d", "%5.5.5d", "%*d", "%p", "%n", "%F", "%\x00d", "abc%", "%%", "100%%", "%%%d%%", "a\x00b%dc"]:
         add("format", "fmti %s %d" % (X(spec), 42))
         add("format", "fmt0 %s" % X(spec))
+    # items at and around the item buffer MAX_ITEM (and Lua's 100-byte shortcut): %s subjects of lengths around them under every
+    # kind of modifier, numeric conversions at the largest width / precision
+    for ln in (98, 99, 100, 101, 127, 128, 129, 510, 511, 512, 513, 514, 1000, 5000):
+        sv = bytes((97 + (k % 26)) for k in range(ln))
+        for spec in ("%s", "%5s", "%-5s", "%99s", "%-99s", "%.3s", "%.99s", "%20.10s", "[%5s]", "%-99.99s|"):
+            add("format", "fmts %s %s" % (X(spec), X(sv)))
+        add("format", "fmtis %s %d %s" % (X("%d:%10s"), rng.choice(ivals), X(sv)))
+        add("format", "fmtsi %s %s %d" % (X("%-8s|%x"), X(sv), rng.choice(ivals)))
+    for spec in ("%99.99d", "%-99.99d", "%+099d", "%#99.99x", "%#99.99o", "%-#99.99X", "%99.99u", "%099u", "% 99.99i", "%99c", "%-99c", "%.99d", "%#.99o"):
+        for v in (0, 1, -1, MAXINT, MININT, 0x0123456789abcdef):
+            add("format", "fmti %s %d" % (X(spec), v))
     for f2 in ["%d and %d", "%5d|%-5d|", "%x%X", "%c%c", "%d%%%d", "%s=%d"]:
         for _ in range(6):
             add("format", "fmtii %s %d %d" % (X(f2), rng.choice(ivals), rng.choice(ivals)))
@@ -800,7 +811,7 @@ THEOREM_CLASSES = {
     "C13_find_plain_first": "main", "C13_find_plain_none": "main", "C13_find_plain_decision_eq_lua": "main",
     "C13_format_eq_lua": "main", "C13_format_val_is_lua": "main", "C13_format_iff_restricted_lua": "corollary",
     "C13_format_restricted_is_lua": "corollary", "C13_c99_plain_d_is_decimal": "corollary",
-    "C13_format_never_unsafe": "main",
+    "C13_format_never_unsafe": "main", "C13_format_never_truncated": "main",
     "C13_match_reads_only_its_arguments": "main", "C13_match_generic_instance": "definitional",
     "C13_search_bounds_adequate": "main", "C13_format_bounds_adequate": "main", "C13_packsize_bound_adequate": "main",
     "C13_gen_facts": "tripwire",
@@ -824,7 +835,7 @@ MANIFEST_ENTRY = {
 
 UNPROVED = [
     "string.format: the conversions of FLOATS (a A e E f g G) are differential only; C13_format_eq_lua / C13_format_val_is_lua treat the C formatter of floats as an arbitrary function (same specification, same argument on both sides). %q is not supported by the port (it stops), %p of non-pointers likewise; numeric conversions of STRING arguments (Lua coerces, the port is statically typed and stops) are outside the reference model. [c99_snprintf] (ISO C99 7.21.6.1 for d i u o x X c s) is a hand transcription of the standard, run against glibc through both real voices on every check, not proved against libc. Under the pragmas usestbsprintf / usenanoprintf the port bundles other snprintf implementations: not covered",
-    "string.format: no theorem that an item fits MAX_ITEM = 512 (integers: at most 2 + 99 characters by C99; measured on every run only); definedness of the C call is C13_format_never_unsafe",
+    "string.format: C13_format_never_truncated covers the size bound of every snprintf call site for integer, character and string items; for FLOAT items the formatter is a parameter assumed to stay below MAX_ITEM (a float item of 512 characters or more makes the port stop, e.g. '%.99f' of 1e308 is 409 characters: fits; long double / float128 arguments are not modelled); the bounds are scraped by regular expressions over formatarg (harness/C13/c13gen.py)",
     "float math (floor/ceil/fmod/abs/max/min on floats), integer max/min/ult/floor/ceil/tointeger (the model is Lua's definition verbatim: nothing to prove, differential only), string concatenation: differential only",
     "pattern matcher: C13_match_eq_lua_within_budget compares ONE transcription of match() under the two configurations (budget 32 vs 200, strchar vs C locale); that strpatt.nelua::_match has the control flow of lstrlib.c::match is established by reading and by the correspondence, not by a second structurally separate model",
     "DOCUMENTED LIMITATION, not a finding (DESIGN 9.2): the port's matcher has a recursion budget of 32 levels (MAX_MATCH_CALLS, error 'pattern too complex') against Lua's 200: C13_match_eq_lua_within_budget has the disjunct '= MTooComplex', C13_match_budget_is_a_limit shows it is reached where Lua succeeds (31 nested captures), the correspondence counts such cases as port_undefined (find:trap:complex); likewise position captures ('not supported yet') and the 8-capture limit of gmatch",
